@@ -268,6 +268,32 @@ def line_cmp(x, y):
     return px == py or _tol(px, py)
 
 
+def mask_consumed(line):
+    w = line.split()
+    if w and w[0] == "O" and len(w) >= 9:
+        w[7] = "_"
+    if w and w[0] == "RND":
+        w = w[:1]
+    return " ".join(w)
+
+
+def mask_for_c08(line):
+    """C08 observes get_sorted_view / get_rank and the random choices consumed; min/max and the iterator are C07's"""
+    w = line.split()
+    if w and w[0] == "O" and len(w) >= 9:
+        w = w[:3] + ["_", "_"] + w[5:8]
+    return " ".join(w)
+
+
+def line_cmp_c08(x, y):
+    return line_cmp(mask_for_c08(x), mask_for_c08(y))
+
+
+def line_cmp_c07(x, y):
+    """C07 does not look at the number of random choices consumed (that is C08's flips_shape_only)"""
+    return line_cmp(mask_consumed(x), mask_consumed(y))
+
+
 # ------------------------------------------------------------------------------------------------ generator pieces
 
 def rand_item(rng, codec, universe, pattern, j):
@@ -320,7 +346,7 @@ class QuantPart(Part):
     harness = "quantiles_h"
     model_exe = "dsmodel_quantiles"
     family = "quantiles"
-    cmp = staticmethod(line_cmp)
+    cmp = staticmethod(line_cmp_c07)
     timeout = 180
 
     KS_QUICK = [2, 2, 4, 4, 8, 16]
@@ -434,7 +460,7 @@ class QuantPart(Part):
         return h
 
     def generate(self, rng, tier):
-        nh = 140 if tier == "quick" else 1500
+        nh = 140 if tier == "quick" else 1000
         return self.witness_histories() + [self.one_history(rng, tier) for _ in range(nh)]
 
     # ------------------------------------------------------------------ the property statement on one implementation trace
